@@ -266,16 +266,72 @@ pub fn unresolvable(c: &Case) -> bool {
     let delta = input_rounding(c);
     let tight = 1e-5 * c.scale_l();
     let w = c.eff_width();
-    let diag = (0..c.d()).map(|k| w[k] * w[k]).sum::<f64>().sqrt();
-    for i in 0..c.n() {
-        let near: Vec<DVec3> = sites_rel(c, i, 1).into_iter().map(|x| x.2).filter(|r| r.length() < tight).collect();
-        for a in 0..near.len() {
-            for b2 in 0..a {
-                let (ra, rb) = (near[a], near[b2]);
-                let (la, lb) = (ra.length(), rb.length());
+    let a = c.eff_anchor();
+    let d = c.d();
+    let diag = (0..d).map(|k| w[k] * w[k]).sum::<f64>().sqrt();
+    let gens = c.eff_gens();
+    // all points, plus the periodic copies of those within `tight` of the seam
+    let mut pts: Vec<(usize, DVec3, bool)> = gens.iter().enumerate().map(|(i, g)| (i, DVec3::from_array(*g), true)).collect();
+    if c.periodic {
+        for (i, g) in gens.iter().enumerate() {
+            let mut shifts: Vec<DVec3> = vec![DVec3::ZERO];
+            for k in 0..d {
+                let mut extra = vec![];
+                for s in &shifts {
+                    if g[k] - a[k] < tight {
+                        let mut t = *s;
+                        t[k] += w[k];
+                        extra.push(t);
+                    }
+                    if a[k] + w[k] - g[k] < tight {
+                        let mut t = *s;
+                        t[k] -= w[k];
+                        extra.push(t);
+                    }
+                }
+                shifts.extend(extra);
+            }
+            for s in shifts.into_iter().skip(1) {
+                pts.push((i, DVec3::from_array(*g) + s, false));
+            }
+        }
+    }
+    pts.sort_by(|x, y| x.1.x.partial_cmp(&y.1.x).unwrap());
+    let m = pts.len();
+    for p in 0..m {
+        if !pts[p].2 {
+            continue; // only original points act as the centre
+        }
+        // tight neighbours of pts[p]
+        let mut near: Vec<DVec3> = vec![];
+        let mut q = p;
+        while q > 0 && pts[p].1.x - pts[q - 1].1.x < tight {
+            q -= 1;
+        }
+        while q < m && pts[q].1.x - pts[p].1.x < tight {
+            if q != p {
+                let rel = pts[q].1 - pts[p].1;
+                let l = rel.length();
+                if l < tight && l > 0. {
+                    near.push(rel);
+                }
+            }
+            q += 1;
+        }
+        // candidates sorted by distance: only pairs whose bisectors are closer to each other
+        // than R alpha matter, which bounds the inner loop
+        let mut near: Vec<(f64, DVec3)> = near.into_iter().map(|r| (r.length(), r)).collect();
+        near.sort_by(|x, y| x.0.partial_cmp(&y.0).unwrap());
+        for x in 0..near.len() {
+            let (la, ra) = near[x];
+            for y in x + 1..near.len() {
+                let (lb, rb) = near[y];
                 let alpha = 4. * delta / la + 4. * delta / lb;
+                if (lb - la) * 0.5 >= diag * alpha {
+                    break;
+                }
                 let sin = ra.cross(rb).length() / (la * lb);
-                if ra.dot(rb) > 0. && sin < alpha && (la - lb).abs() * 0.5 < diag * alpha {
+                if ra.dot(rb) > 0. && sin < alpha {
                     return true;
                 }
             }
